@@ -114,6 +114,8 @@ class Interp:
         self.functions_executed = set()
         from . import models
         models.install(self)
+        from . import cryptomodel
+        cryptomodel.install(self)
 
     # ------------------------------------------------------------------ modules
     def module(self, name):
@@ -131,7 +133,10 @@ class Interp:
             if isinstance(node, ast.FunctionDef):
                 g[node.name] = FuncVal(m, node)
             elif isinstance(node, ast.ClassDef):
-                g[node.name] = self.make_class(m, node, frame)
+                try:
+                    g[node.name] = self.make_class(m, node, frame)
+                except (Unsupported, PyExc) as e:
+                    g[node.name] = _Unevaluated(node.name, repr(e))
             elif isinstance(node, ast.Import):
                 for a in node.names:
                     top = a.name.split(".")[0]
@@ -141,6 +146,10 @@ class Interp:
                         g[top] = self.import_module_value(top)
             elif isinstance(node, ast.ImportFrom):
                 modname = node.module
+                if node.level:
+                    base = m.name.split(".")
+                    base = base[:len(base) - node.level]
+                    modname = ".".join(base + ([node.module] if node.module else []))
                 for a in node.names:
                     g[a.asname or a.name] = self.import_from(modname, a.name)
             elif isinstance(node, (ast.Assign, ast.AnnAssign)):
@@ -713,7 +722,7 @@ class Interp:
             return v
         b = self.models.get("builtins." + n)
         if b is not None:
-            return b if not callable(b) or isinstance(b, (ExcClass,)) else Builtin(n, b)
+            return b if not callable(b) or isinstance(b, (ExcClass, External)) else Builtin(n, b)
         if n in EXC_NAMES:
             return ExcClass(n)
         raise PyExc("NameError", "name '%s' is not defined" % n)
@@ -753,6 +762,9 @@ class Interp:
                 return g[name]
             raise PyExc("AttributeError", "module has no attribute " + name)
         if isinstance(o, External):
+            cst = self.models.get(o.dotted + "." + name)
+            if cst is not None and not callable(cst):
+                return cst
             return External(o.dotted + "." + name)
         if isinstance(o, ClassVal):
             v = self.class_lookup(o, name)
